@@ -117,3 +117,55 @@ Definition remove (v : value) (p : path) (prune : bool) : option value * value :
               | None => (None, v)
               end
   end.
+
+(* ---------- vocabulary for the frame law (C18) ---------- *)
+
+Definition get_opt (slot : option value) (q : path) : option value :=
+  match slot with Some v => get v q | None => None end.
+
+Definition as_obj (slot : option value) : obj := match slot with Some (VObj m) => m | _ => [] end.
+Definition as_arr (slot : option value) : list value := match slot with Some (VArr a) => a | _ => [] end.
+
+Definition in_range (len : nat) (i : Z) : bool :=
+  match arr_index len i with Some n => Nat.ltb n len | None => false end.
+
+Definition new_len (len : nat) (i : Z) : nat :=
+  if (0 <=? i)%Z then Nat.max len (S (Z.to_nat i)) else Nat.max len (Z.to_nat (- i)).
+
+(* `disjoint_stable slot p q`: q names a location that neither contains nor is contained in p,
+   and whose *name* keeps denoting the same element while p is written:
+     - field vs field with different keys: always;
+     - index vs index: different elements, and when the write extends the array, q's index has the
+       sign that is not renumbered by the extension (end padding renumbers negative indices, front
+       padding renumbers non-negative ones), or q stays outside the extended array;
+     - field vs index (or the reverse): the write replaces a container of the other kind
+       (assignment coerces), so q must not have existed there. *)
+Fixpoint disjoint_stable (slot : option value) (p q : path) {struct p} : bool :=
+  match p, q with
+  | [], _ => false
+  | _, [] => false
+  | SField k1 :: p', SField k2 :: q' =>
+      if bytes_eqb k1 k2 then disjoint_stable (obj_get (as_obj slot) k1) p' q' else true
+  | SIndex i :: p', SIndex j :: q' =>
+      let a := as_arr slot in
+      let len := length a in
+      if (i =? j)%Z then disjoint_stable (arr_get a i) p' q'
+      else if in_range len i && in_range len j then
+        if match arr_index len i, arr_index len j with
+           | Some n, Some m => Nat.eqb n m | _, _ => false end
+        then disjoint_stable (arr_get a i) p' q'
+        else true
+      else if in_range len j then
+        (* the write pads the array *)
+        ((0 <=? i)%Z && (0 <=? j)%Z) || ((i <? 0)%Z && (j <? 0)%Z)
+      else
+        negb (in_range (new_len len i) j)
+  | SField _ :: _, SIndex j :: _ =>
+      match slot with Some (VArr a) => negb (in_range (length a) j) | _ => true end
+  | SIndex _ :: _, SField k :: _ =>
+      match slot with Some (VObj m) => match obj_get m k with None => true | Some _ => false end
+                 | _ => true end
+  end.
+
+Definition is_scalar (v : value) : bool :=
+  match v with VObj _ | VArr _ => false | _ => true end.
